@@ -648,6 +648,100 @@ theorem GoRT_ok_iff (o : ND) (T : Rat) (flag : PyFlag) (v : Rat) :
       simp only [Except.ok.injEq, exists_and_left, exists_eq_left']
       exact eq_comm
 
+/-! ### the dimensional getters as relations -/
+
+omit [DecidableEq N] [DecidableEq S] in
+theorem lookupR_ok_iff (R : RTable) (u : UnitStr) (r : Rat) : lookupR R u = .ok r ↔ R.lookup u = some r := by
+  unfold lookupR
+  cases R.lookup u <;> simp
+
+omit [DecidableEq N] [DecidableEq S] in
+theorem H_ok_iff (R : RTable) (o : ND) (T : Rat) (u : UnitStr) (v : Rat) :
+    o.H R T u = .ok v ↔ ∃ h r, o.hort T = .ok h ∧ R.lookup (perK u) = some r ∧ v = h * T * r := by
+  unfold ND.H
+  cases h1 : o.hort T with
+  | error err => simp
+  | ok h =>
+    cases h2 : lookupR R (perK u) with
+    | error err =>
+      have : R.lookup (perK u) = none := by
+        unfold lookupR at h2; cases h3 : R.lookup (perK u) <;> simp [h3] at h2 ⊢
+      simp [this]
+    | ok r =>
+      rw [lookupR_ok_iff] at h2
+      simp only [Except.ok.injEq, h2, Option.some.injEq, exists_and_left, exists_eq_left']
+      exact eq_comm
+
+omit [DecidableEq N] [DecidableEq S] in
+theorem G_ok_iff (R : RTable) (o : ND) (T : Rat) (u : UnitStr) (flag : PyFlag) (v : Rat) :
+    o.G R T u flag = .ok v ↔ ∃ g r, o.GoRT T flag = .ok g ∧ R.lookup (perK u) = some r ∧ v = g * T * r := by
+  unfold ND.G
+  cases h1 : o.GoRT T flag with
+  | error err => simp
+  | ok h =>
+    cases h2 : lookupR R (perK u) with
+    | error err =>
+      have : R.lookup (perK u) = none := by
+        unfold lookupR at h2; cases h3 : R.lookup (perK u) <;> simp [h3] at h2 ⊢
+      simp [this]
+    | ok r =>
+      rw [lookupR_ok_iff] at h2
+      simp only [Except.ok.injEq, h2, Option.some.injEq, exists_and_left, exists_eq_left']
+      exact eq_comm
+
+omit [DecidableEq N] [DecidableEq S] in
+theorem S_ok_iff (R : RTable) (o : ND) (T : Rat) (u : UnitStr) (flag : PyFlag) (v : Rat) :
+    o.Sdim R T u flag = .ok v ↔ ∃ s r, o.sor T flag = .ok s ∧ R.lookup u = some r ∧ v = s * r := by
+  unfold ND.Sdim
+  cases h1 : o.sor T flag with
+  | error err => simp
+  | ok h =>
+    cases h2 : lookupR R u with
+    | error err =>
+      have : R.lookup u = none := by
+        unfold lookupR at h2; cases h3 : R.lookup u <;> simp [h3] at h2 ⊢
+      simp [this]
+    | ok r =>
+      rw [lookupR_ok_iff] at h2
+      simp only [Except.ok.injEq, h2, Option.some.injEq, exists_and_left, exists_eq_left']
+      exact eq_comm
+
+omit [DecidableEq N] [DecidableEq S] in
+theorem Cp_ok_iff (R : RTable) (o : ND) (T : Rat) (u : UnitStr) (v : Rat) :
+    o.Cp R T u = .ok v ↔ ∃ c r, o.cp T = .ok c ∧ R.lookup u = some r ∧ v = c * r := by
+  unfold ND.Cp
+  cases h1 : o.cp T with
+  | error err => simp
+  | ok h =>
+    cases h2 : lookupR R u with
+    | error err =>
+      have : R.lookup u = none := by
+        unfold lookupR at h2; cases h3 : R.lookup u <;> simp [h3] at h2 ⊢
+      simp [this]
+    | ok r =>
+      rw [lookupR_ok_iff] at h2
+      simp only [Except.ok.injEq, h2, Option.some.injEq, exists_and_left, exists_eq_left']
+      exact eq_comm
+
+/-- `Σ_atoms Sel(Z)` as a plain sum (0 for an element without an entry; only used when every atom has one) -/
+def selD (sel : Nat → Option Rat) (z : Nat) : Rat := match sel z with | some v => v | none => 0
+
+omit [DecidableEq N] [DecidableEq S] in
+theorem selSumFrom_ok_iff (sel : Nat → Option Rat) (acc : Rat) (atoms : List Nat) (v : Rat) :
+    selSumFrom sel acc atoms = .ok v ↔ (∀ z ∈ atoms, ∃ w, sel z = some w) ∧ v = acc + (atoms.map (selD sel)).sum := by
+  induction atoms generalizing acc with
+  | nil => simp [selSumFrom]; exact eq_comm
+  | cons z zs ih =>
+    unfold selSumFrom
+    cases hz : sel z with
+    | none => simp [hz]
+    | some w =>
+      simp only [ih, List.mem_cons, forall_eq_or_imp, hz, Option.some.injEq, exists_eq', true_and, List.map_cons,
+        List.sum_cons, selD]
+      constructor
+      · rintro ⟨h, rfl⟩; exact ⟨h, by ring⟩
+      · rintro ⟨h, rfl⟩; exact ⟨h, by ring⟩
+
 /-! ### linearity of the specification sum -/
 
 theorem specEstimate_append (lib : Library N S) (s : S) (get : Corr → Val) (g1 g2 : List (N × Rat)) :
